@@ -144,10 +144,11 @@ def near_fn(pe, a):
     return BoolV(Near(to_int(a)))
 
 
-RR = "max(reach or 1, 1)"
+# over the ARGUMENTS as passed (old(...)): the body may reassign its locals `reach` / `limit`
+RR = "max(old(reach) or 1, 1)"
 MERGE_DEFS = dict(
     RR=RR,
-    LP="(limit if limit else (1968 if (v[0] // 10000 in (0, 1, 10, 11, 12, 13, 14, 15, 16)) else 123))",
+    LP="(old(limit) if old(limit) else (1968 if (v[0] // 10000 in (0, 1, 10, 11, 12, 13, 14, 15, 16)) else 123))",
 )
 
 MERGE_REQUIRES = ("(reach is None or reach >= 0) and (limit is None or limit >= 0) and "
@@ -265,6 +266,11 @@ def contracts(repo):
 
 # ------------------------------------------------------------------------------------------------ bounded tier
 def enum_inputs(tier, rng):
+    # runs longer than the per-bank default transfer limits (123 registers, 1968 coils / statuses), alone and behind a range of another bank
+    for rs in ([(40001, 200)], [(1, 1), (40001, 200)], [(1, 2000)], [(30001, 124), (1, 1968)], [(10001, 130), (40001, 124), (100001, 1969)],
+               [(1, 1), (40001, 100), (40101, 100)], [(40001, 123), (40124, 1)]):
+        for reach in (None, 1, 5):
+            yield rs, reach, None
     win = 7 if tier == 'quick' else 9
     base_addrs = [0, 9996, 40001, 49996, 99996]        # windows inside a bank and across the 10000 / 50000 / 100000 block boundaries
     singles = [(a, c) for a in range(win) for c in range(1, 4) if a + c <= win + 1]
@@ -421,7 +427,7 @@ def bounded(tier, seed):
     if not samples:
         samples.append(dict(ranges=[(0, 3), (1, 1)], reach=1, limit=None, merged=_run_merge([(0, 3), (1, 1)], 1, None)[1]))
     return dict(evaluations=ev, distinct_nontrivial=len(distinct), distinct_keys=distinct_keys(distinct),
-                rule='merge: lists of 0..%d ranges (address offset 0..6, count 1..3) placed at bank positions 0 / 9996 / 40001 / 49996 / 99996, '
+                rule='merge: lists of 0..%d ranges (address offset 0..6, count 1..3) placed at bank positions 0 / 9996 / 40001 / 49996 / 99996, and seven lists with runs longer than the default limits (mixed banks), '
                      'reach and limit in {None,0,1,2,3}; all lists up to 2 ranges x all reach x limit {None,1,2}, sampled beyond; '
                      'oracle = set semantics of the property; distinct = distinct (ranges, reach, limit) with >= 2 ranges; '
                      'shatter: address x count x limit lattice vs exact tiling; poller: %d histories of the real poller_modbus thread '
